@@ -322,6 +322,9 @@ func Invoke(inv Invocation) int {
 	if inv.WorkDir == "" {
 		inv.WorkDir = inv.Dir
 	}
+	// a generated mainfile left behind by an interrupted run (possibly only
+	// partly written) must not make go/build fail to list the directory.
+	removeStaleMainfile(inv.Dir)
 	magefilesDir := filepath.Join(inv.Dir, MagefilesDirName)
 	// . will be default unless we find a mage folder.
 	mfSt, err := os.Stat(magefilesDir)
@@ -330,6 +333,7 @@ func Invoke(inv Invocation) int {
 			stderrBuf := &bytes.Buffer{}
 			originalDir := inv.Dir
 			inv.Dir = magefilesDir // preemptive assignment
+			removeStaleMainfile(inv.Dir)
 			// TODO: Remove this fallback and the above Magefiles invocation when the bw compatibility is removed.
 			files, err := Magefiles(originalDir, inv.GOOS, inv.GOARCH, inv.GoCmd, stderrBuf, false, inv.Debug)
 			if err == nil {
@@ -461,6 +465,16 @@ func Invoke(inv Invocation) int {
 	}
 
 	return RunCompiled(inv, exePath, errlog)
+}
+
+// removeStaleMainfile removes a generated mainfile left over in dir by an
+// earlier run that was killed before it could clean up.
+func removeStaleMainfile(dir string) {
+	main := filepath.Join(dir, mainfile)
+	if st, err := os.Lstat(main); err == nil && st.Mode().IsRegular() {
+		debug.Println("removing stale mainfile", main)
+		os.Remove(main)
+	}
 }
 
 type mainfileTemplateData struct {
